@@ -107,16 +107,19 @@ def mutate_spec(rng, sp):
                 desc = "wrapped in " + w
         elif k == "Bin":
             which = rng.choice(["num", "low", "high"])
+            tiny = rng.random() < 0.25
             if which == "num":
                 m["num"] = n["num"] + 1
             elif which == "low":
-                m["low"] = n["low"] - 0.5
+                m["low"] = n["low"] - (1e-13 if tiny and n["low"] - 1e-13 != n["low"] else 0.5)
             else:
-                m["high"] = n["high"] + 0.5
+                m["high"] = n["high"] + (1e-13 if tiny and n["high"] + 1e-13 != n["high"] else 0.5)
             desc = "Bin." + which
         elif k == "SparselyBin":
             which = rng.choice(["bw", "origin"])
-            m[which] = n[which] + 0.25
+            m[which] = n[which] + rng.choice([0.25, 0.25, 1e-13])
+            if m[which] == n[which]:
+                m[which] = n[which] + 0.25
             desc = "SparselyBin." + which
         elif k == "CentrallyBin":
             if rng.random() < 0.5:
@@ -393,6 +396,8 @@ def run_case(i, rng, tier):
             elif step == "pickle":
                 x = pickle.loads(pickle.dumps(x))
         return x
+    tol = 1e-12 if rng.random() < 0.3 else 0.0
+    wit["tolerance"] = tol
     for op, order in (("+", "ab"), ("+", "ba"), ("+=", "ab"), ("+=", "ba")):
         try:
             a = C.fill_all(S.build(sp), sa)
@@ -414,6 +419,10 @@ def run_case(i, rng, tier):
         tx, ty = O.text(x), O.text(y)
         raised = None
         result = None
+        import histogrammar.util as util_
+
+        # the comparison tolerances a user may set for == (the library's own tests use 1e-12) are not a licence to merge
+        util_.relativeTolerance = util_.absoluteTolerance = tol
         try:
             if op == "+":
                 result = x + y
@@ -422,7 +431,11 @@ def run_case(i, rng, tier):
                 result = x
         except Exception as e:  # noqa: BLE001
             raised = e
+        finally:
+            util_.relativeTolerance = util_.absoluteTolerance = 0.0
         counters["merges_attempted"] = counters.get("merges_attempted", 0) + 1
+        if tol:
+            counters["merges_under_nonzero_tolerance"] = counters.get("merges_under_nonzero_tolerance", 0) + 1
         name = "%s %s %s" % ("left" if order == "ab" else "right(mutant)", op, "mutant" if order == "ab" else "left")
         if raised is None:
             try:
